@@ -42,14 +42,25 @@ RULE = ("all interleavings of 2 logical threads (1-3 operations each; thorough a
         "in every arrival order served by pools of 1, 2, 3 OS threads (several logical threads on ONE OS thread), "
         "sequential and interleaved between workers; stream 'preempt': single preemption at STATEMENT granularity -- "
         "thread 0 held before its k-th executed line inside saml2.sigver/pack/entity (sys.settrace line events), all "
-        "other threads run their whole programs, thread 0 resumes; every k; non-trivial = some thread's "
+        "other threads run their whole programs, thread 0 resumes; every k -- for sign, verify and set-up operations "
+        "alike; verify histories (X1 under Y1, then X2 under Y2, preempted by X3 under Y3: all 64 name choices "
+        "thorough, 40 quick) and double preemption (two hold points, threads 1 and 2) sampled; stream 'setup': "
+        "entities set up DURING the run from key files (same path/changed content, same content/different paths) "
+        "interleaved with signing and verifying, the configuration object of each new entity coming about by fresh "
+        "load / copy.copy / copy.deepcopy of an existing entity's Config + re-pointing / mutation of a used Config / "
+        "one dictionary loaded twice / a configuration file, as SPConfig, IdPConfig or plain Config (stream "
+        "'provenance': every combination); stream 'matrix': library verdict for (signature by X, certificate Y "
+        "of kind RSA / EC P-256 / Ed25519, verifier backend Z in {X, Y, third}) must be [X = Y]; non-trivial = some thread's "
         "get_signer and its sign/verify are separated by another thread's action (model class interleaved|race), "
         "or an OS thread serves several logical threads, or the preemption point was reached")
 TRUSTED = [
     "gate scheduler of harness/props/c20.py: serialises the logical threads at get_signer/sign/verify (all "
     "interleavings at call boundaries); in addition ONE preemption between any two statements of the library's "
     "Python code in saml2.sigver/pack/entity (line events) with the other threads run to completion there; not "
-    "explored: two or more statement-level preemptions in one run, preemption inside a C call / inside other modules",
+    "explored: more than two statement-level preemptions in one run (two: sampled, verify histories only), "
+    "preemption inside a C call / inside other modules (e.g. saml2.cryptography)",
+    "entity set-up is carried out by the harness as one step (copy key+certificate to the path, construct a "
+    "minimal Saml2Client): the key file is never rewritten while another thread is loading the same path",
     "logical thread = the caller (entity operation sequence) of the Lean model; which OS thread carries it out "
     "(own thread, or a pool worker shared with other logical threads) is a harness parameter the model ignores",
     "signature verification of the produced URL by the harness (cryptography RSA PKCS#1 v1.5 over the URL's own "
@@ -78,6 +89,7 @@ GOOD_ALGS = [SHA1, SHA224, SHA256, SHA384, SHA512]
 BAD_ALGS = [MD5, BOGUS]
 
 # entity name = key name of harness/keys; kind of pysaml2 entity acting with that key
+HOWS = ["fresh", "copy", "deepcopy", "mutate", "samedict", "file", "file_alias"]
 ENTITIES = {"sp": "sp", "sp2": "sp", "idp_sign": "idp", "member2": "idp", "idp2": "idp"}
 ACTORS = ["sp", "idp_sign", "member2", "sp2", "idp2"]
 BYSTANDERS = ["attacker", "idp_sign2"]
@@ -363,17 +375,86 @@ class _Ctx:
 REFUSALS = ("Signature algo not in allowed list", "Could not init signer")
 
 
-def _make_entity(key_file, cert_file, label):
-    """a fresh pysaml2 entity whose signing key is read from key_file NOW (security_context)"""
-    from saml2.client import Saml2Client
-    from saml2.config import SPConfig
+def _minimal_dict(key_file, cert_file, label, cls):
+    if cls == "idp":
+        service = {"idp": {"endpoints": {"single_sign_on_service": [
+            ("https://%s.c20.example/sso" % label, S.BINDING_REDIRECT)]}}}
+    else:
+        service = {"sp": {"endpoints": {"assertion_consumer_service": [
+            ("https://%s.c20.example/acs" % label, S.BINDING_POST)]}}}
+    return {"entityid": "https://%s.c20.example/%s" % (label, cls), "key_file": key_file, "cert_file": cert_file,
+            "xmlsec_binary": S.xmlsec_standin.BINARY, "service": service}
 
-    c = SPConfig()
-    c.load({"entityid": "https://%s.c20.example/sp" % label, "key_file": key_file, "cert_file": cert_file,
-            "xmlsec_binary": S.xmlsec_standin.BINARY,
-            "service": {"sp": {"endpoints": {"assertion_consumer_service": [
-                ("https://%s.c20.example/acs" % label, S.BINDING_POST)]}}}})
-    return Saml2Client(config=c)
+
+def _entity_from(conf_or_dict, cls):
+    """entity of the class that goes with the configuration class: SPConfig / plain Config -> Saml2Client,
+    IdPConfig -> Server; a dictionary is loaded into a NEW configuration object of that class first"""
+    from saml2.client import Saml2Client
+    from saml2.config import Config, IdPConfig, SPConfig
+    from saml2.server import Server
+
+    conf = conf_or_dict
+    if isinstance(conf_or_dict, dict):
+        conf = {"sp": SPConfig, "idp": IdPConfig, "base": Config}[cls]()
+        conf.load(conf_or_dict)
+        if cls == "base":
+            conf.context = "sp"
+    ent = (Server if cls == "idp" else Saml2Client)(config=conf)
+    ent._c20_cls = cls
+    return ent
+
+
+def _make_entity(key_file, cert_file, label, op, ent, env):
+    """A new pysaml2 entity whose configuration names key_file / cert_file; its signing key is read from key_file
+    NOW (security_context).  `how` = the way the configuration OBJECT comes about (the model ignores it: set-up is
+    'key := content of the key file named by the configuration at construction time' whatever the provenance):
+      fresh     dictionary loaded into a new SPConfig / IdPConfig / Config (`cls`)
+      copy      copy.copy of the configuration of the entity the thread acts for now (already turned into a
+                security context), then entityid / key_file / cert_file assigned (per-tenant configuration)
+      deepcopy  same with copy.deepcopy (source: a minimal entity; the big pre-built ones cannot be deep-copied)
+      mutate    the configuration object of the current entity itself is re-pointed, a new entity built from it
+      samedict  one dictionary object per path, loaded into two configuration objects, one entity from each
+      file      configuration module written to a file of its own, entity built with config_file=<path>
+      file_alias  like file, but every such file is called sp_conf.py (in a directory of its own): the class of
+                  defect d4739075 (files of one base name aliased); finding_key keeps naming it"""
+    import copy
+
+    how = op.get("how") or "fresh"
+    cls = op.get("cls") or "sp"
+    if how in ("copy", "deepcopy", "mutate"):
+        src = ent
+        if how == "deepcopy" and not getattr(ent, "_c20_minimal", False):
+            c0 = getattr(ent, "_c20_cls", None) or ("idp" if type(ent).__name__ == "Server" else "sp")
+            src = _entity_from(_minimal_dict(ent.config.key_file, ent.config.cert_file, label + "-base", c0), c0)
+        conf = src.config if how == "mutate" else getattr(copy, how)(src.config)
+        conf.entityid = "https://%s.c20.example/derived" % label
+        conf.key_file = key_file
+        conf.cert_file = cert_file
+        new = type(src)(config=conf)
+        new._c20_cls = getattr(src, "_c20_cls", None)
+        new._c20_minimal = getattr(src, "_c20_minimal", False)
+        return new
+    if how == "samedict":
+        d = env.setdefault("dicts", {}).setdefault((key_file, cls), _minimal_dict(key_file, cert_file, label, cls))
+        env.setdefault("keep", []).append(_entity_from(d, cls))
+        new = _entity_from(d, cls)
+    elif how in ("file", "file_alias"):
+        from saml2.client import Saml2Client
+        from saml2.server import Server
+
+        if cls == "base":
+            cls = "sp"
+        sub = os.path.join(env["dir"], "conf-%s" % label)
+        os.makedirs(sub, exist_ok=True)
+        fn = os.path.join(sub, ("sp_conf" if how == "file_alias" else "c20conf_%s" % label.replace("-", "_")) + ".py")
+        with open(fn, "w") as f:
+            f.write("CONFIG = %r\n" % (_minimal_dict(key_file, cert_file, label, cls),))
+        new = (Server if cls == "idp" else Saml2Client)(config_file=fn)
+        new._c20_cls = cls
+    else:
+        new = _entity_from(_minimal_dict(key_file, cert_file, label, cls), cls)
+    new._c20_minimal = True
+    return new
 
 
 def _do_op(op, ent, universe, env):
@@ -415,7 +496,7 @@ def _do_op(op, ent, universe, env):
         shutil.copyfile(S.cert_path(op["content"]), cf)
         env["n"] = env.get("n", 0) + 1
         try:
-            new = _make_entity(kf, cf, "e%d" % env["n"])
+            new = _make_entity(kf, cf, "e%d" % env["n"], op, ent, env)
         except Exception as e:
             return {"r": "crash", "exc": type(e).__name__}, ent
         return {"r": "setup"}, new
@@ -740,7 +821,8 @@ class _Gen:
     def setup_op(self, path=None, content=None):
         rng = self.rng
         return {"op": "setup", "path": path if path is not None else rng.choice([1, 1, 2, 3]),
-                "content": content if content is not None else rng.choice(RSA_NAMES)}
+                "content": content if content is not None else rng.choice(RSA_NAMES),
+                "how": rng.choice(HOWS), "cls": rng.choice(["sp", "sp", "idp", "base"])}
 
     def triple(self, alg, x, y):
         """verify operation: genuine signature of key pair x over these octets, checked against certificate y"""
@@ -896,6 +978,9 @@ def gen_cases(rng, tier):
 
     # ---- entity set-up (key loading) inside the history
     yield from setup_cases(rng, g, tables, thorough)
+
+    # ---- how the configuration object of an entity set up during the run comes about
+    yield from provenance_cases(rng, g, tables, thorough)
 
     # ---- verdict matrix of the library's verifier, other certificate kinds
     yield from matrix_cases(rng, g, tables, thorough)
@@ -1068,6 +1153,7 @@ def setup_cases(rng, g, tables, thorough):
                     op["sig"] = {"key": x, "alg": op["alg"], "msg": op["msg"]}
                     op["cert"] = rng.choice([x, rng.choice(setups)["content"], rng.choice(CERT_NAMES)])
         base["extra_keys"] = rng.sample(CERT_NAMES, 2)
+        base["stream"] = "setup"
         counts = _counts(base, tables)
         limit = 400 if thorough else 60
         if n_interleavings(counts) <= limit:
@@ -1075,6 +1161,56 @@ def setup_cases(rng, g, tables, thorough):
         else:
             yield from _with_schedules(base, _sample_schedules(rng, counts, limit))
         yield from _with_schedules(base, [[]])
+
+
+def provenance_cases(rng, g, tables, thorough):
+    """how an entity's configuration object comes about: every `how` x configuration class, derived from the
+    pre-built entity the thread starts with (shared with a second thread that keeps signing for it, or not), and
+    chains fresh -> copy -> mutate -> ... inside one thread; sequential and interleaved"""
+    for how in HOWS:
+        for cls in ("sp", "idp", "base"):
+            for key_mode in ("same", "distinct"):
+                g.ctr = rng.randrange(0, 400) * 10
+                alg = rng.choice(GOOD_ALGS)
+                k0, k1 = g.keys(2, key_mode)
+                content = rng.choice([n for n in RSA_NAMES if n not in (k0, k1)])
+                u = g.setup_op(rng.choice([1, 2]), content)
+                u["how"], u["cls"] = how, cls
+                base = {"threads": [{"key": k0, "prog": [g.sign(alg), u, g.sign(alg)]},
+                                    {"key": k1, "prog": [g.sign(alg), g.sign(alg)]}],
+                        "extra_keys": rng.sample(CERT_NAMES, 2), "stream": "provenance"}
+                counts = _counts(base, tables)
+                yield from _with_schedules(base, [[]])
+                yield from _with_schedules(base, _sample_schedules(rng, counts, 12 if thorough else 3))
+    for _ in range(12 if thorough else 5):
+        g.ctr = rng.randrange(0, 400) * 10
+        alg = rng.choice(GOOD_ALGS)
+        k0, k1 = g.keys(2, rng.choice(["same", "distinct"]))
+        prog = []
+        for j in range(rng.randint(2, 4)):
+            u = g.setup_op(rng.choice([1, 1, 2]), rng.choice(RSA_NAMES))
+            if j == 0 and rng.random() < 0.5:
+                u["how"] = "fresh"
+            prog += [u, g.sign(alg)]
+        base = {"threads": [{"key": k0, "prog": prog}, {"key": k1, "prog": [g.setup_op(1), g.sign(alg)]}],
+                "extra_keys": rng.sample(CERT_NAMES, 2), "stream": "provenance"}
+        yield from _with_schedules(base, [[]])
+        yield from _with_schedules(base, _sample_schedules(rng, _counts(base, tables), 10 if thorough else 4))
+    # configuration FILES with the same base name in different directories (defect fixed by d4739075: they aliased)
+    for _ in range(6 if thorough else 3):
+        g.ctr = rng.randrange(0, 400) * 10
+        alg = rng.choice(GOOD_ALGS)
+        k0, k1 = g.keys(2, rng.choice(["distinct", "same"]))
+        c0, c1, c2 = rng.sample([n for n in RSA_NAMES if n not in (k0, k1)], 3)
+        us = [g.setup_op(1, c0), g.setup_op(2, c1), g.setup_op(rng.choice([1, 3]), c2)]
+        for u in us:
+            u["how"], u["cls"] = "file_alias", rng.choice(["sp", "idp"])
+        base = {"threads": [{"key": k0, "prog": [us[0], g.sign(alg), us[2], g.sign(alg)]},
+                            {"key": k1, "prog": [us[1], g.sign(alg)]}],
+                "extra_keys": [], "stream": "provenance"}
+        counts = _counts(base, tables)
+        yield from _with_schedules(base, [[], [1, 1, 1]])
+        yield from _with_schedules(base, _sample_schedules(rng, counts, 12 if thorough else 4))
 
 
 def matrix_cases(rng, g, tables, thorough):
@@ -1090,7 +1226,8 @@ def matrix_cases(rng, g, tables, thorough):
                 per_z[z].append(g.triple(rng.choice(GOOD_ALGS), x, y))
     for z in per_z:
         rng.shuffle(per_z[z])
-    base = {"threads": [{"key": z, "prog": per_z[z]} for z in (a, b, c)], "extra_keys": list(OTHER_KIND_CERTS)}
+    base = {"threads": [{"key": z, "prog": per_z[z]} for z in (a, b, c)], "extra_keys": list(OTHER_KIND_CERTS),
+            "stream": "matrix"}
     counts = _counts(base, tables)
     yield from _with_schedules(base, [[]])
     yield from _with_schedules(base, _sample_schedules(rng, counts, 30 if thorough else 6))
@@ -1099,7 +1236,7 @@ def matrix_cases(rng, g, tables, thorough):
     for _ in range(40 if thorough else 12):
         (z1, o1), (z2, o2), (z3, o3), (z4, o4) = (rng.choice(ops) for _ in range(4))
         base = {"threads": [{"key": z1, "prog": [o1, o3]}, {"key": z2, "prog": [o2, o4]}],
-                "extra_keys": list(OTHER_KIND_CERTS)}
+                "extra_keys": list(OTHER_KIND_CERTS), "stream": "matrix"}
         yield from _with_schedules(base, interleavings(_counts(base, tables)))
 
 
@@ -1131,6 +1268,11 @@ def finding_key(case, impl, lean):
     # observable (gate trace and every result) equals the shared-design model and differs from the repaired one
     if lean.get("like") == "shared":
         return "C20/shared-signer-key"
+    # configuration files with one base name in different directories: only cases that contain two or more such
+    # set-ups and nothing else that could explain a wrong key (all set-ups of the case are of that kind)
+    setups = [op for th in case["threads"] for op in th["prog"] if op["op"] == "setup"]
+    if len(setups) >= 2 and all(op.get("how") == "file_alias" for op in setups):
+        return "C20/config-file-basename-alias"
     return None
 
 
@@ -1210,7 +1352,7 @@ def distribution(recs):
     d = {"stream": {}, "threads": {}, "class": {}, "branch": {}, "like": {}, "ops": {}, "schedule_len": {}}
     for r in recs:
         c, l = r["case"], r["lean"]
-        for k, v in (("stream", l.get("stream")), ("threads", str(len(c["threads"]))), ("class", l.get("class")),
+        for k, v in (("stream", c.get("stream") or l.get("stream")), ("threads", str(len(c["threads"]))), ("class", l.get("class")),
                      ("like", l.get("like")),
                      ("ops", str(sum(len(t["prog"]) for t in c["threads"]))),
                      ("schedule_len", str(min(len(c.get("schedule") or []), 20)))):
